@@ -98,7 +98,11 @@ pub fn bfs<M: Model>(m: &M, max_depth: Option<usize>, max_states: usize) -> BfsR
     let mut per_depth = vec![frontier.len() as u64];
     let mut fixpoint = false;
     let mut capped = false;
+    let mut aborted = false;
     while !frontier.is_empty() {
+        if aborted {
+            break;
+        }
         if let Some(d) = max_depth {
             if depth >= d {
                 break;
@@ -151,6 +155,13 @@ pub fn bfs<M: Model>(m: &M, max_depth: Option<usize>, max_states: usize) -> BfsR
             });
             transitions += a.evals;
             acc.merge(a);
+            // a broken implementation makes real and reference contents diverge and the state space
+            // explode; a few hundred counter-examples are enough, stop exploring (not exhaustive then)
+            if acc.violation_count >= 300 {
+                capped = true;
+                aborted = true;
+                break;
+            }
             let mut cands = cands.into_inner().unwrap();
             cands.sort_by(|x, y| (x.0, x.1).cmp(&(y.0, y.1)));
             for (idx, ai, k, st) in cands {
@@ -194,6 +205,9 @@ pub fn bfs<M: Model>(m: &M, max_depth: Option<usize>, max_states: usize) -> BfsR
     }
     if capped {
         acc.count("state_cap_hit");
+    }
+    if aborted {
+        acc.count("search_stopped_after_300_violations");
     }
     let max_depth_seen = nodes.iter().map(|n| n.depth).max().unwrap_or(0);
     acc.evals = transitions;
